@@ -2,6 +2,8 @@ package rules
 
 import (
 	"fmt"
+	"go/token"
+	"go/types"
 	"strings"
 
 	"golang.org/x/tools/go/ssa"
@@ -25,6 +27,8 @@ func init() {
 			{Name: "echo-origin", File: "bfe_modules/mod_cors/mod_cors.go", Old: "	return false, \"\"\n}", New: "	return true, origin\n}", Expect: "allow-return"},
 			{Name: "vary-dead-store", File: "bfe_modules/mod_cors/mod_cors.go", Old: "		rspHeader.Set(HeaderVary, varyValue+\",\"+HeaderOrigin)", New: "		varyValue += \",\" + HeaderOrigin", Expect: "vary-path"},
 			{Name: "fallthrough-to-later-rule", File: "bfe_modules/mod_cors/mod_cors.go", Old: "			m.setRespHeaderForNonPreflight(request, response.Header, &rule)\n			break", New: "			m.setRespHeaderForNonPreflight(request, response.Header, &rule)\n			if response.Header.Get(HeaderAccessControlAllowOrigin) != \"\" {\n				break\n			}", Expect: "first-match"},
+			{Name: "keep-backend-grant-early-return", File: "bfe_modules/mod_cors/mod_cors.go", Old: "	m.state.ReqAllowOriginHit.Inc(1)\n\n	rspHeader.Set(HeaderAccessControlAllowOrigin, matchedOrigin)\n\n	if rule.AccessControlAllowCredentials {\n		rspHeader.Set(HeaderAccessControlAllowCredentials, \"true\")\n	}\n\n	if len(rule.AccessControlExposeHeaders) > 0 {", New: "	m.state.ReqAllowOriginHit.Inc(1)\n\n	if rspHeader.Get(HeaderAccessControlAllowOrigin) != \"\" {\n		return\n	}\n	rspHeader.Set(HeaderAccessControlAllowOrigin, matchedOrigin)\n\n	if rule.AccessControlAllowCredentials {\n		rspHeader.Set(HeaderAccessControlAllowCredentials, \"true\")\n	}\n\n	if len(rule.AccessControlExposeHeaders) > 0 {", Expect: "vary-after-allow"},
+			{Name: "table-merged-on-reload", File: "bfe_modules/mod_cors/cors_rule_table.go", Old: "	t.productRule = ruleConf.Config\n", New: "	for product, ruleList := range ruleConf.Config {\n		t.productRule[product] = ruleList\n	}\n", Expect: "table-replaced"},
 			{Name: "vary-call-dropped", File: "bfe_modules/mod_cors/mod_cors.go", Old: "		rspHeader.Set(HeaderAccessControlExposeHeaders, strings.Join(rule.AccessControlExposeHeaders, \",\"))\n	}\n\n	addVaryHeader(rspHeader)", New: "		rspHeader.Set(HeaderAccessControlExposeHeaders, strings.Join(rule.AccessControlExposeHeaders, \",\"))\n	}\n", Expect: "vary-after-grant"},
 		},
 	})
@@ -101,8 +105,74 @@ func runC52(c *core.Ctx) {
 			}
 		}
 	}
+	// (1b) once the handler has branched on "origin allowed", the response depends on the request
+	// Origin whatever it does next (also when it decides to keep a header the backend supplied):
+	// every path from the allowed edge to a return passes addVaryHeader, and passes the store of
+	// the origin the rule yields (a stale or backend-supplied Access-Control-Allow-Origin is not
+	// what the matching rule configured).
+	for _, fn := range fns {
+		for _, in := range allInstrs(fn) {
+			ifi, ok := in.(*ssa.If)
+			if !ok {
+				continue
+			}
+			cond := ifi.Cond
+			allowedSucc := 0
+			if u, isU := cond.(*ssa.UnOp); isU && u.Op == token.NOT {
+				cond = u.X
+				allowedSucc = 1
+			}
+			if !isExtractOfCall(cond, 0, pkg+".matchOriginAllowed") {
+				continue
+			}
+			ab := ifi.Block().Succs[allowedSucc]
+			if len(ab.Instrs) == 0 {
+				continue
+			}
+			isVary := func(x ssa.Instruction) bool {
+				ci, ok := x.(ssa.CallInstruction)
+				return ok && core.CallIs(ci.Common(), pkg+".addVaryHeader")
+			}
+			isGrant := func(x ssa.Instruction) bool {
+				name, call, ok := headerWrite(x)
+				return ok && name == "Access-Control-Allow-Origin" && isExtractOfCall(call.Args[2], 1, pkg+".matchOriginAllowed")
+			}
+			isRet := func(x ssa.Instruction) bool { _, r := x.(*ssa.Return); return r }
+			for _, spec := range []struct {
+				rule string
+				pred func(ssa.Instruction) bool
+				msg  string
+			}{
+				{"vary-after-allow", isVary, "after matchOriginAllowed() reported the origin as allowed a return is reachable without addVaryHeader: the response depends on the request Origin but Vary does not list it"},
+				{"grant-after-allow", isGrant, "after matchOriginAllowed() reported the origin as allowed a return is reachable without storing the origin the rule yields into Access-Control-Allow-Origin: the response keeps whatever value was there instead of the configured grant"},
+			} {
+				okPath := spec.pred(ab.Instrs[0]) || core.ReachAvoiding(fn, ab.Instrs[0], spec.pred, isRet) == nil
+				c.Check(spec.rule, core.FuncKey(fn), ifi.Pos(), okPath, spec.msg)
+			}
+		}
+	}
+	// (1c) the rule table is replaced as a whole on reload: rules dropped from the file must stop granting
+	if tn, ok := c.P.Obj(pkg, "CorsRuleTable").(*types.TypeName); !ok {
+		c.Missing(pkg + ".CorsRuleTable")
+	} else if upd := c.P.Func(pkg, "CorsRuleTable.Update"); upd == nil {
+		c.Missing(pkg + ".CorsRuleTable.Update")
+	} else if st, isSt := tn.Type().Underlying().(*types.Struct); isSt {
+		var lockField *types.Var
+		for i := 0; i < st.NumFields(); i++ {
+			if ts := st.Field(i).Type().String(); ts == "sync.RWMutex" || ts == "sync.Mutex" {
+				lockField = st.Field(i)
+			}
+		}
+		probs := tableUpdateProblems(upd, st, lockField)
+		for _, pr := range probs {
+			c.Check("table-replaced", "CorsRuleTable.Update:"+pr.key, pr.pos, false, "CorsRuleTable.Update "+pr.msg+" (origins that no current rule allows keep receiving Access-Control-* headers)")
+		}
+		c.Check("table-replaced", "CorsRuleTable.Update", upd.Pos(), true, "")
+	}
 	c.Min("acao-guard", 7)
 	c.Min("vary-after-grant", 2)
+	c.Min("vary-after-allow", 2)
+	c.Min("grant-after-allow", 2)
 	// first matching rule decides: once a rule's condition matched, no later rule is consulted
 	for _, hname := range []string{"ModuleCors.corsHandler", "ModuleCors.corsPreflightHandler"} {
 		fn := c.P.Func(pkg, hname)
